@@ -1345,6 +1345,54 @@ fn main() {
                 Err(_) => println!("open_after_close=err"),
             }
         }
+        // forced_flush_over_pending : the memtable was rotated but its flush has not run yet (background thread held); another
+        // thread forces a flush; then the background thread is released. Are all acknowledged keys readable?
+        "forced_flush_over_pending" => {
+            use raindb::{ReadOptions, WriteOptions};
+            let mut o = raindb::DbOptions::with_memory_env();
+            o.db_path = "db".to_string();
+            o.create_if_missing = true;
+            o.max_memtable_size = 64 * 1024;
+            let db = std::sync::Arc::new(raindb::DB::open(o).expect("open"));
+            db.hold_background_for_verif(true);
+            let mut keys = vec![];
+            // fill until the memtable has been rotated once (the rotated one waits for the held background thread)
+            for i in 0..90u32 {
+                let k = format!("key{:04}", i).into_bytes();
+                db.put(WriteOptions::default(), k.clone(), vec![b'x'; 1024]).unwrap();
+                keys.push(k);
+            }
+            let (tx, rx) = std::sync::mpsc::channel();
+            let db2 = std::sync::Arc::clone(&db);
+            std::thread::spawn(move || { let _ = tx.send(db2.flush_for_verif()); });
+            std::thread::sleep(std::time::Duration::from_millis(400));
+            db.hold_background_for_verif(false);
+            println!("scheduled={}", db.schedule_compaction_for_verif());
+            println!("forced_flush={:?}", rx.recv_timeout(std::time::Duration::from_secs(15)).ok());
+            std::thread::sleep(std::time::Duration::from_millis(300));
+            let lost = keys.iter().filter(|k| db.get(ReadOptions::default(), k).is_err()).count();
+            println!("written={}", keys.len());
+            println!("lost={}", lost);
+        }
+        // cache_ids : eight threads draw 50000 block-cache ids each from the default block cache; ids must be unique
+        "cache_ids" => {
+            let o = raindb::DbOptions::with_memory_env();
+            let cache = o.block_cache();
+            let mut handles = vec![];
+            for _ in 0..8 {
+                let c = std::sync::Arc::clone(&cache);
+                handles.push(std::thread::spawn(move || (0..50000).map(|_| c.new_id()).collect::<Vec<u64>>()));
+            }
+            let mut all: Vec<u64> = vec![];
+            for h in handles {
+                all.extend(h.join().unwrap());
+            }
+            let n = all.len();
+            all.sort();
+            all.dedup();
+            println!("drawn={}", n);
+            println!("duplicates={}", n - all.len());
+        }
         "vs_recover" => {
             // a database is created, written and closed; a fresh version set recovers from its files
             use raindb::WriteOptions;
